@@ -265,6 +265,22 @@ CHECKS["C09"] = (
     "DESIGN.md 3 (C09)",
 )
 
+CHECKS["C11"] = (
+    "Coq proof over the reals (field, trigonometry) about a hand-written reading of setup_mcmc / KeplerianOrbit; per-point certificates (exact bigQ + "
+    "certified intervals) on the assembled pymc model's model_rv, ln_likelihood and observed-variable log-density against the sampler's design-matrix model",
+    "Proved: whatever internal reference anomaly the orbit object derives from (e, omega), its mean anomaly at x = t - t_ref is 2 pi x/P - M0 (the "
+    "sampler's convention, t_peri = P M0/2 pi); the RV form K(cos w cos f - sin w sin f + e cos w) is the kernel's K(cos(w+f) + e cos w) for any "
+    "true-anomaly function; the stored ln_prior = logp - ln_likelihood is the prior part of the log-density iff ln_likelihood is the Gaussian data "
+    "term; Normal(rv, sqrt(sigma^2+s^2)) has variance sigma^2+s^2; the median-period sample is a member of rank floor(n/2). Per run the pymc model "
+    "that setup_mcmc assembles (poly_trend 1..3, 0..2 offsets, constant / sampled / no jitter, prior units d|yr, km/s|m/s) is evaluated at the "
+    "returned initial point and at a second point as a function of its random variables: Coq certifies model_rv = M x with the K column from "
+    "twobody at the sampler's convention, ln_likelihood = sum ln N(y | M x, sigma^2+s^2) and the same for the log-density term of the observed "
+    "variable; mcmc_init = the chosen (median-period) sample in the prior's units.",
+    "Trusted: pymc's model.logp = sum of declared log-densities (free variables with their transforms' Jacobians + the observed variable); "
+    "exoplanet_core's Kepler solver; twobody for the sampler-convention K column; astropy conversion factors; tolerances 1e-8 / 1e-7.",
+    "DESIGN.md 3 (C11)",
+)
+
 NOT_YET = {}
 
 
